@@ -24,9 +24,12 @@ func TestMain(m *testing.M) {
 	rec = evidence.New("C05", "exploration",
 		"free-running multi-client stress against a subprocess server (restarted and reported if it dies): 3–8 TCP clients each run a rapid-generated script of 20–150 read-modify-write commands on shared keys — INCR/INCRBY/DECRBY on one counter, APPEND on one string, LPUSH/RPOP on one list, SADD/SREM of per-operation unique members on one set, HINCRBY on one hash field, ZINCRBY on one member, MSET of two keys with one value, MGET of those two keys, LMOVE between two lists — while another connection issues SAVE / REWRITEAOF in a loop. "+
 			"Oracle: conservation invariants that every sequential order of the acknowledged commands satisfies: final counter = sum of acknowledged increments; final string length = sum of appended lengths; list length = acknowledged pushes − successful pops, and every popped element was pushed exactly once; the set contains exactly the members whose SADD was acknowledged and not later removed by the same client; hash field and score = sum of increments; every MGET sees the two MSET keys equal; the two lists of the LMOVE pair together hold exactly the elements that were pushed; "+
-			"the process is alive and answers PING afterwards; 'panic:' / 'fatal error:' on its stderr is a violation. A case is one set of scripts; non-trivial = at least two clients operate on the same key; distinct = FNV-64 of the scripts.",
+			"the process is alive and answers PING afterwards; 'panic:' / 'fatal error:' on its stderr is a violation. "+
+			"Schedule-controlled leg: two or three generated commands (all families, multi-key and whole-keyspace commands such as FLUSHDB/FLUSHALL/SWAPDB, on a generated dataset over keys {a,b,c}) are issued by concurrent embedded callers while a controller owns the interleaving of their keyspace steps (yield hook at the entry of keysExist/getValues/setValues/setExpiry/deleteKey/flush/swap/state copy and before the command lock) and enumerates the schedules depth-first (≤ 24 per case quick, ≤ 120 thorough); the replies and final dataset of every schedule must equal those of one sequential order of the same commands run on a fresh server, with no deadlock and no panic. "+
+			"A case is one set of scripts (or one dataset × command tuple with all its schedules); non-trivial = at least two clients/commands operate on the same key; distinct = FNV-64 of the case.",
 		"the interleaving is whatever the Go scheduler and the kernel produce: a passing run shows only that no violation occurred on the schedules that happened; the saved scripts are the reproducible unit, not the schedule",
-		"the schedule-controlled leg (yield hook, exhaustive interleavings of two commands) described in DESIGN.md is not built; data-race reports are not a verdict")
+		"in the schedule-controlled leg a released task that stays silent for 15 ms is taken to wait for a lock; interleaving happens at the yield points, not inside a keyspace function; commands with random results are excluded from that leg (their sequential outcome is not unique)",
+		"data-race reports are not a verdict")
 	common.Main(m, rec)
 }
 
@@ -437,7 +440,9 @@ func TestReplay(t *testing.T) {
 		t.Skip()
 	}
 	var rf struct {
-		Scripts scripts `json:"scripts"`
+		Leg     string     `json:"leg"`
+		Scripts scripts    `json:"scripts"`
+		Sched   *schedCase `json:"sched"`
 	}
 	if err := common.LoadJSON(p, &rf); err != nil {
 		t.Fatalf("HARNESS-ERROR: %v", err)
@@ -450,6 +455,10 @@ func TestReplay(t *testing.T) {
 			fmt.Printf("VIOLATION property=C05 replay=%s\n", p)
 		}
 	}()
+	if rf.Leg == "sched" && rf.Sched != nil {
+		rapid.Check(t, func(t *rapid.T) { schedProperty(t, rf.Sched) })
+		return
+	}
 	// the schedule is not reproducible: the scripts are run several times
 	for i := 0; i < 5 && !t.Failed(); i++ {
 		rapid.Check(t, func(t *rapid.T) { runCase(t, &rf.Scripts) })
